@@ -288,7 +288,62 @@ func ruleRawSeq(c *Ctx, r *Rep) {
 				continue
 			}
 			if !ok1 || !ok2 || !ok3 {
-				r.Undecided("shape:"+key, c.Pos(ci.Pos()), "class, tag or constructed bit of the literal is not a constant")
+				// class, tag or form handed in: the literal is decided once per call of the function, with what that
+				// call hands in
+				sites, decided := 0, 0
+				for _, caller := range c.Funcs {
+					for _, site := range callsIn(caller) {
+						if site.Common().StaticCallee() != fn {
+							continue
+						}
+						sites++
+						at := func(f string) (int64, bool) {
+							v, ok := lf[f]
+							if !ok {
+								return 0, true
+							}
+							if prm, isP := v.(*ssa.Parameter); isP {
+								for i, fp := range fn.Params {
+									if fp == prm && i < len(site.Common().Args) {
+										v = site.Common().Args[i]
+									}
+								}
+							}
+							d := c.describe(ev, v, 0)
+							if i, ok := d.Int(); ok {
+								return i, true
+							}
+							if bv, ok := d.Bool(); ok {
+								if bv {
+									return 1, true
+								}
+								return 0, true
+							}
+							return 0, false
+						}
+						cl, k1 := at("Class")
+						tg, k2 := at("Tag")
+						cp, k3 := at("IsCompound")
+						if !k1 || !k2 || !k3 {
+							continue
+						}
+						decided++
+						skey := sprintf("%s@%s", key, c.FuncKey(caller))
+						switch {
+						case cl != 0:
+							r.Ok(skey, c.Pos(site.Pos()), "universal tags only", sprintf("class %d", cl))
+						case derConstructed[tg]:
+							r.Check(cp == 1, skey, c.Pos(site.Pos()), sprintf("universal tag %d is constructed", tg), sprintf("IsCompound %v", cp == 1))
+						case derPrimitive[tg]:
+							r.Check(cp == 0, skey, c.Pos(site.Pos()), sprintf("universal tag %d is primitive", tg), sprintf("IsCompound %v", cp == 1))
+						default:
+							r.Ok(skey, c.Pos(site.Pos()), "a tag with a prescribed form", sprintf("universal tag %d", tg))
+						}
+					}
+				}
+				if sites == 0 || decided < sites {
+					r.Undecided("shape:"+key, c.Pos(ci.Pos()), "class, tag or constructed bit of the literal is not a constant")
+				}
 				continue
 			}
 			switch {
@@ -1639,6 +1694,28 @@ func ruleRawTable(c *Ctx, r *Rep) {
 			switch v := res[0].(type) {
 			case *ssa.Const:
 				kind = "nothing"
+			case *ssa.Call:
+				// a helper of the module that wraps its arguments into the builder
+				if h := v.Call.StaticCallee(); h != nil && c.InModule(h) && h.Blocks != nil && !hasLoop(h) {
+					for _, hr := range returnsOf(h) {
+						if mi, ok := retResults(hr)[0].(*ssa.MakeInterface); ok {
+							t := typeShort(c, mi.X.Type())
+							switch {
+							case strings.HasSuffix(t, "OverrideNeededBuilder"):
+								kind = "override-needed"
+							case strings.HasSuffix(t, "ConstantBuilder"):
+								kind = "constant"
+								o := strings.Join(pv.Origins(v), " ")
+								switch {
+								case strings.Contains(o, "\"Raw\""):
+									kind = "constant-from-raw"
+								case strings.Contains(o, "\"Content\""):
+									kind = "constant-from-content"
+								}
+							}
+						}
+					}
+				}
 			case *ssa.MakeInterface:
 				t := typeShort(c, v.X.Type())
 				switch {
